@@ -328,7 +328,7 @@ fn items(args: &Args) -> Vec<Item> {
     if thorough {
         trailings.extend([vec![2, 1, 1, 2], vec![1, 1, 2, 1, 2], vec![2, 0, 1]]);
     }
-    let mut qshapes: Vec<(Vec<usize>, QRank)> = vec![(vec![], QRank::Static), (vec![0], QRank::Static), (vec![1], QRank::Static), (vec![3], QRank::Static), (vec![2, 2], QRank::Static), (vec![1, 0], QRank::Static), (vec![2, 1, 2], QRank::Static), (vec![], QRank::Dyn), (vec![3], QRank::Dyn), (vec![2, 2], QRank::Dyn)];
+    let mut qshapes: Vec<(Vec<usize>, QRank)> = vec![(vec![], QRank::Static), (vec![0], QRank::Static), (vec![1], QRank::Static), (vec![3], QRank::Static), (vec![2, 2], QRank::Static), (vec![1, 0], QRank::Static), (vec![2, 1, 2], QRank::Static), (vec![2, 3, 2], QRank::Static), (vec![], QRank::Dyn), (vec![3], QRank::Dyn), (vec![2, 2], QRank::Dyn)];
     if thorough {
         qshapes.extend([(vec![1, 2, 1, 2], QRank::Static), (vec![0], QRank::Dyn), (vec![2, 1, 2], QRank::Dyn), (vec![0, 3], QRank::Static)]);
     }
@@ -372,7 +372,7 @@ pub fn run(args: &Args) -> Report {
         rep.functions.insert(f.to_string());
     }
     rep.bounds.push(format!("Interp1D (Linear, one CubicSpline) over data (3, trailing) and Interp2D (Bilinear) over (2,3, trailing) with trailing in (), (2), (2,1), (0), (1,2,1){}; static and IxDyn data; combined rank > 6 (dynamic result)", if args.thorough() { ", (2,1,1,2), (1,1,2,1,2), (2,0,1)" } else { "" }));
-    rep.bounds.push(format!("query dimension types Ix0, Ix1 (lengths 0,1,3), Ix2 (2x2, 1x0), Ix3 (2x1x2){} and IxDyn of rank 0, 1, 2{}; every data value a symbol; queries distinct exactly representable constants, or symbols (with symbolic axes) for batches of <= 2 elements", if args.thorough() { ", Ix4" } else { "" }, if args.thorough() { ", 3" } else { "" }));
+    rep.bounds.push(format!("query dimension types Ix0, Ix1 (lengths 0,1,3), Ix2 (2x2, 1x0), Ix3 (2x1x2, 2x3x2){} and IxDyn of rank 0, 1, 2{}; every data value a symbol; queries distinct exactly representable constants, or symbols (with symbolic axes) for batches of <= 2 elements", if args.thorough() { ", Ix4" } else { "" }, if args.thorough() { ", 3" } else { "" }));
     rep.outside.push("query ranks above 4 (static); axis lengths above 3".into());
     rep.assumptions.insert("mode O: comparisons bit-precise IEEE, arithmetic uninterpreted; equal recorded terms are equal IEEE values".into());
     rep.assumptions.insert("C11 (engine K) for index-guess casts in the symbolic-query scenarios".into());
